@@ -83,7 +83,58 @@ CLAIMS = [
         "design_ref": "DESIGN.md 6/C17, 12",
         "note": "Trusted as for C02; the C++ overload machinery (CanInvokeWithUpsertContext) is exercised by K2 with functors of both arities, not modelled.",
     },
+    {
+        "property_id": "C01",
+        "technique": "Lean 4 invariant proof over a guarded transition system of the locking protocol (all schedules, threads, stripes, lock arrays) + sequential refinement of every critical section (C02); tied by K3: deterministic-scheduler executions of the real code, trace replay through the Lean acceptor, exhaustive linearizability search per history",
+        "text": "Props/C01.lean (protocol half): in every execution accepted by Cuckoo.Proto.accept — local syntactic rules on the synchronisation events "
+                "reported by the hooks — a validated thread works with the current hashpower and the current lock array (validated_is_current), a "
+                "sound snapshot with an unchanged resize counter is current unless a resizer sits between its change and its counter bump, and a stale "
+                "snapshot fails validation; proved by induction over arbitrary traces. K3 replays recorded traces of /repo through that very "
+                "acceptor (a swapped load pair, a dropped validation, a missing counter bump are rejected on the first execution that takes the "
+                "path) and explores 2-3 thread programs over find/insert/erase/update functors/rehash/reserve/clear/locked sections with "
+                "preemption-bounded and random schedules, checking each history for linearizability against a sequential map, final contents and "
+                "structural scan. PARTIAL: the step from 'validated critical sections on the current table, mutually exclusive per stripe' to "
+                "linearizability uses the sequential refinement of each critical section (C02) plus the classical two-phase-locking reduction, "
+                "which is not mechanised; helper threads are not modelled.",
+        "design_ref": "DESIGN.md 6/C01, 12",
+        "note": "Trusted: Lean kernel; hooks + baton scheduler + C++ linearizability search (K3); the scheduler yields sequentially consistent executions only.",
+    },
+    {
+        "property_id": "C03",
+        "technique": "Lean 4 exclusion theorems over the protocol transition system + K3 lockset/protocol monitor and trace replay",
+        "text": "Props/C03.lean: a lock has one holder; whoever touches a bucket (or runs a functor on it, or touches its stripe's counter/flag) holds the "
+                "stripe in the current lock array and is validated or owns the table; two threads allowed to touch the same stripe are the same "
+                "thread; an owner (lock_all / locked section) excludes every validated thread and every access. Hence updates of one key are "
+                "serialised (no lost update) and a reader sees before-or-after (no torn read). K3 checks on the real code that every bucket "
+                "access / functor call / metadata access event happens under the right stripe of the current array. PARTIAL: the data-race "
+                "clause in the C++ memory-model sense is not proved (no hardware memory model); the unsynchronised read of the lock-array list "
+                "(all_locks_.back() vs emplace_back) is outside the protocol model.",
+        "design_ref": "DESIGN.md 6/C03, 12",
+        "note": "Trusted as for C01. Memory orders of the atomics are not yet tied by a translator (T-C planned).",
+    },
+    {
+        "property_id": "C04",
+        "technique": "Lean 4 proofs of lock-order invariants and deadlock freedom over the protocol transition system + K3 deadlock/lock-leak/step-budget detection",
+        "text": "Props/C04.lean: every thread's locks are taken in strictly ascending (array, index) order (invariant over all accepted traces); a pure "
+                "order lemma and proto_deadlock_free show that no set of threads can be blocked on each other; a returning call holds no lock; an active "
+                "section holds every lock of the current array, arrays appended by it are born locked, and its unlock releases everything. K3: a "
+                "schedule with no runnable thread, a lock still held after all calls returned, or an exceeded step budget is reported with its "
+                "schedule. PARTIAL: termination under every fair schedule (livelock freedom of competing displacements) is not proved.",
+        "design_ref": "DESIGN.md 6/C04, 12",
+        "note": "Trusted as for C01. Exception exits are covered by K5 lock probes (C07), not by this model.",
+    },
+    {
+        "property_id": "C06",
+        "technique": "Lean 4 proofs about table ownership in the protocol transition system + sequential refinement of section operations (C02, C12) + K3 with parked threads",
+        "text": "Props/C06.lean: while a thread owns the table (from the end of lock_all to its first release) no other thread is or can become validated or "
+                "touch a bucket; the owner cannot release between a change of the table's shape and the counter bump, so parked operations fail "
+                "validation and restart; growth keeps ownership; only an owner resizes. The section's own operations refine the map (C02: lockTable, "
+                "ltInsert, ltErase, rehash/reserve in locked mode, clear; C12: stream extraction). K3 programs park other threads at every "
+                "synchronisation point while the section inserts with growth, rehashes up and down, clears, and replaces the table by stream extraction.",
+        "design_ref": "DESIGN.md 6/C06, 12",
+        "note": "Trusted as for C01.",
+    },
 ]
 
 _PENDING = "machinery not built yet in this round (planned: DESIGN.md section 6); not claimed until its check exists"
-NOT_APPLICABLE = [{"property_id": "C%02d" % i, "reason": _PENDING} for i in range(1, 18) if i not in (2, 5, 9, 10, 12, 13, 17)]
+NOT_APPLICABLE = [{"property_id": "C%02d" % i, "reason": _PENDING} for i in range(1, 18) if i not in (1, 2, 3, 4, 5, 6, 9, 10, 12, 13, 17)]
